@@ -53,15 +53,14 @@ def showCode (id : String) (r : R Code) : String :=
   | .error e => s!"id={id} err={e.name}"
   | .ok c => s!"id={id} ok=1 v={c.version} e={match c.error with | some x => toString x | none => "-"} mask={c.mask} m={matrixStr c.matrix}"
 
-def handle (line : String) : String :=
-  let (cmd, r) := parseReq line
+/-- commands of this file; `none` = not mine -/
+def handleCore (cmd : String) (r : Req) : Option String :=
   let id := r.getD "id" "?"
   match cmd with
   | "enc" =>
-    showCode id (encode (parseParts (r.getD "parts" "")) (optNat (r.getD "error" "-")) (optInt (r.getD "version" "-"))
+    some (showCode id (encode (parseParts (r.getD "parts" "")) (optNat (r.getD "error" "-")) (optInt (r.getD "version" "-"))
       (optNat (r.getD "gmode" "-")) (optNat (r.getD "mask" "-")) (r.getD "eci" "0" == "1") (optBool (r.getD "micro" "-")) (r.getD "boost" "1" == "1")
-      (eciNumberFrom (r.getD "canon" "")))
-  | "" => ""
-  | _ => s!"id={id} error=unknown-command-{cmd}"
+      (eciNumberFrom (r.getD "canon" ""))))
+  | _ => none
 
 end Model
